@@ -81,9 +81,24 @@ def check(col: Collector, tier: str):
                 "both handlers must agree", h.loc)
         # result typed by the declaration
         if hname == "visit_Call_Member":
-            s = src(h.node)
-            ok = "isinstance(m_info.r_type, ctyp.collection)" in s and "crep.cpp_collection(v_name, calling_against.scope(), m_info.r_type)" in s.replace("\n", "").replace("  ", "") \
-                and "crep.cpp_value(v_name, calling_against.scope(), m_info.r_type)" in s.replace("\n", "").replace("  ", "")
+            # per path, locals substituted: what set_rep publishes is cpp_collection(..) exactly where the declared return type is a
+            # collection, cpp_value(..) otherwise, both placed at the receiver's scope and typed by the declaration (.r_type)
+            from sa.core.paths import substituted_paths as _sp
+            ok = True
+            kinds = set()
+            for items in _sp(h.node):
+                if any(k == "raise" for k, *_ in items):
+                    continue
+                pubs_ = [c for k, c, *_ in items if k == "call" and call_name(c) == "set_rep"]
+                is_coll = [r_[0] for k, t, *r_ in items if k == "cond" and "isinstance(" in src(t) and src(t).rstrip(")").endswith("ctyp.collection") and ".r_type" in src(t)]
+                if len(pubs_) != 1 or len(is_coll) != 1 or len(pubs_[0].args) < 2 or not isinstance(pubs_[0].args[1], ast.Call):
+                    ok = False
+                    continue
+                made = pubs_[0].args[1]
+                want = "cpp_collection" if is_coll[0] else "cpp_value"
+                ok = ok and call_name(made) == want and len(made.args) == 3 and src(made.args[1]).endswith(".scope()") and src(made.args[2]).endswith(".r_type")
+                kinds.add(want)
+            ok = ok and kinds == {"cpp_collection", "cpp_value"}
             col.add("C10.R1", h.short, "result-typed-by-the-declaration", ok, "collection-valued methods become cpp_collection, others cpp_value, both typed m_info.r_type", h.loc)
             tpl = defs_of(h.node, "v_name")
             sh = shape(parts(h.node, tpl[0])) if len(tpl) == 1 else []
@@ -277,11 +292,32 @@ def check(col: Collector, tier: str):
     dd = defs_of(ba.node, "depth")
     ok = len(dd) == 1 and src(dd[0]).replace(" ", "") in ("extra_deref+v.cpp_type().p_depth", "v.cpp_type().p_depth+extra_deref")
     col.add("C10.R6", ba.short, "depth=declared-pointer-depth+extra-deref", ok, f"depth = {[src(d) for d in dd]}", ba.loc)
-    rets = [r for r in walk_no_nested(ba.node) if isinstance(r, ast.Return)]
-    arrow = [r for r in rets if "->" in src(r.value)]
-    dot = [r for r in rets if "->" not in src(r.value)]
-    ok = len(arrow) == 1 and len(dot) == 1 and any(tr_ and src(t) == "depth > 0" for t, tr_ in guards(ba.node, arrow[0], pmb)) and \
-        shape(parts(ba.node, dot[0].value))[-1] == "."
+    # what is returned on each path, locals substituted (a local for the accessor, two returns, a conditional expression read the same):
+    # <wrapped value> + "->" exactly on the paths where depth > 0, <wrapped value> + "." on the others.  (loop not unrolled: 0 iterations)
+    from sa.core.paths import substituted_paths, canon_atom
+    ok = True
+    seen_kinds = set()
+    for items in substituted_paths(ba.node, unroll=0):
+        rv = [v for k, v, *_ in items if k == "return"]
+        conds = set()
+        for k, t, *r_ in items:
+            if k == "cond":
+                a_, pol = canon_atom(t)
+                conds.add((a_, r_[0] == pol))
+        if len(rv) != 1 or rv[0] is None:
+            ok = False
+            continue
+        last = shape(parts(ba.node, rv[0]))[-1:]
+        dtexts = {"depth"} | {src(d) for d in dd}
+        pos = any((f"0 < {d_}", True) in conds for d_ in dtexts)
+        neg = any((f"0 < {d_}", False) in conds for d_ in dtexts)
+        if last == ["->"] and pos:
+            seen_kinds.add("->")
+        elif last == ["."] and neg:
+            seen_kinds.add(".")
+        else:
+            ok = False
+    ok = ok and seen_kinds == {"->", "."}
     col.add("C10.R6", ba.short, "arrow-iff-any-indirection", ok, "`->` when depth > 0, `.` otherwise", ba.loc)
     check_parse_type(col, "C10.R6", repo)
     dv = repo.function("dereference_var")
